@@ -27,6 +27,9 @@ PROPS = {
     "C19": dict(world="encoder_world", level="exploration",
                 quick=dict(runs=20000, wall=240, chunk=500), thorough=dict(runs=800000, wall=1500, chunk=4000),
                 assumptions=COMMON_ASSUME + ["refractory periods are multiples of dt and frequency x refrac < 900 (documented constraint < 1000, kept with a margin)"]),
+    "C14": dict(world="config_world", level="exploration",
+                quick=dict(runs=4000, wall=400, chunk=100), thorough=dict(runs=150000, wall=2400, chunk=500),
+                assumptions=COMMON_ASSUME + ["maximum delays and durations are expressed in steps of the final step time and re-asserted after the last dt assignment; record sizes, observation shapes and dtypes of internal histories are compared, not their private dt/duration fields"]),
     "C15": dict(world="lifecycle_world", level="fault_enumeration",
                 quick=dict(runs=3000, wall=400, chunk=50), thorough=dict(runs=120000, wall=2400, chunk=500),
                 assumptions=COMMON_ASSUME + ["updates are read from the updaters and cleared, never applied, so the control replica sees the same dynamics",
